@@ -8,7 +8,7 @@ root = os.path.dirname(os.path.dirname(os.path.abspath(__file__)))
 dst = os.path.join(root, "seeded", sid)
 os.makedirs(dst, exist_ok=True)
 for f in ("patch.diff", "demo_test.go", "notes.md"):
-    if os.path.exists(os.path.join(src, f)):
+    if os.path.exists(os.path.join(src, f)) and os.path.abspath(src) != os.path.abspath(dst):
         shutil.copy(os.path.join(src, f), os.path.join(dst, f))
 extra = os.environ.get("SEED_EXTRA_PKGS", "").split()
 out = subprocess.run([os.path.join(root, "tools", "seedcheck.sh"), dst, prop, demopkg] + extra, capture_output=True, text=True).stdout
